@@ -38,4 +38,7 @@ def core_schema():
     # algo stacks / flow control (ghost: g_calls, g_stamp, g_clock record invocations of opaque algos)
     s.declare(algos="list", _list_of_algos="list", check_run_always="bool", run_always="bool", has_run_always="bool",
               g_calls="int", g_stamp="int", g_clock="int", g_runs="int", perm_ver="int", _algo="ref:Algo", stack="ref:AlgoStack")
+    # Backtest
+    s.declare(strategy="ref:StrategyBase", additional_data="opaque", initial_capital="float", progress_bar="bool", stats="opaque", _original_prices="opaque",
+              _original_data="opaque", _setup_kwargs="opaque")
     return s
